@@ -15,7 +15,7 @@ TIERS = {
     "quick": {"runs": 4000, "max_wall": 240, "minimise_s": 25, "chunk": 50},
     "thorough": {"runs": 150000, "max_wall": 3000, "minimise_s": 60, "chunk": 200},
 }
-FAULT_KINDS = ["value valid only for another protocol version", "value type given as str / IntEnum", "raising event callback"]
+FAULT_KINDS = ["value valid only for another protocol version", "value type given as str / IntEnum", "raising event callback", "flood: 3-70 value requests of one sleeping node between two wake-ups"]
 REAL, STUBS, ASSUMPTIONS = netcheck.REAL, netcheck.STUBS, netcheck.ASSUMPTIONS
 REQUIRED_PROBES = ["burst_with_two_held", "burst_with_desired", "desired_stored", "reply_held"]
 WEIGHTS = {"heartbeat": 16, "presleep": 16, "ctl_set": 18, "value": 16, "req": 12, "present_child": 10, "present_node": 5,
